@@ -15,13 +15,19 @@ Checked per index: types (integers), validity (n >= |m|, n-|m| even; exponents >
 rule (m > 0 <-> even j, m < 0 <-> odd j) and non-decreasing n, ANSI closed form 2j = n(n+2)+m in exact integers, inverse maps
 (nm_to_fringe, nm_to_ansi_j) both on the reference order and on the implementation's own forward output.
 A second unit pushes every valid (n,m) with n <= 400 / 1500 through nm_to_* and back.
+History units: every ordered pair of calls over an index alphabet and full ascending / descending / scattered sweeps in one process
+(the maps must not depend on earlier calls).
 """
+import functools
+
 import numpy as np
 
 from mc import ScopeUnit, FAILED
 
 from prysm import polynomials as pp
 
+# the maps take and return plain integers: the ndarray call-hygiene layer of Recorder.call has nothing to look at and is switched off
+# (hygiene=False) for speed; statefulness between calls is the job of the history units below
 ID = 'C11'
 ASSUMPTIONS = [
     'published orders: Noll 1976 (rows n, |m| ascending, even j <-> cosine); Fringe (groups n+|m|, |m| descending, cosine first); '
@@ -144,11 +150,11 @@ def run_block(case, seed, R):
     got = []
     prev_n = None
     if conv == 'noll' and j0 > 1:
-        ok, pn, _ = as_pair(R.call(f, j0 - 1, sig=f'{fn}:exception'))
+        ok, pn, _ = as_pair(R.call(f, j0 - 1, hygiene=False, sig=f'{fn}:exception'))
         prev_n = pn if ok else None
     for i, w in enumerate(want):
         j = j0 + i
-        out = R.call(f, j, sig=f'{fn}:exception')
+        out = R.call(f, j, hygiene=False, sig=f'{fn}:exception')
         if out is FAILED:
             continue
         ok, n, m = as_pair(out)
@@ -172,14 +178,14 @@ def run_block(case, seed, R):
             N.check(2 * j == n * (n + 2) + m, f'{fn}:closed-form', lambda: f'ansi_j_to_nm({j}) = {(n, m)} but (n(n+2)+m)/2 = {(n * (n + 2) + m) / 2}')
         if inv is not None:
             # inverse on the published order (independent of the forward map) and round trip on the forward output
-            jj = as_int(R.call(inv, w[0], w[1], sig=f'{INV[conv]}:exception'))
+            jj = as_int(R.call(inv, w[0], w[1], hygiene=False, sig=f'{INV[conv]}:exception'))
             N.check(jj == j, f'{INV[conv]}:value', lambda: f'{INV[conv]}{w} = {jj!r}, expected {j}')
             if (n, m) != w:
-                jr = as_int(R.call(inv, n, m, sig=f'{INV[conv]}:exception'))
+                jr = as_int(R.call(inv, n, m, hygiene=False, sig=f'{INV[conv]}:exception'))
                 N.check(jr == j, f'{INV[conv]}:roundtrip', lambda: f'{INV[conv]}(*{fn}({j})) = {jr!r}')
         if a == 0:
             # numpy integer spelling of the same index
-            ok2, n2, m2 = as_pair(R.call(f, np.int64(j), sig=f'{fn}:int64:exception'))
+            ok2, n2, m2 = as_pair(R.call(f, np.int64(j), hygiene=False, sig=f'{fn}:int64:exception'))
             N.check(ok2 and (n2, m2) == (n, m), f'{fn}:int64', lambda: f'{fn}(np.int64({j})) = {(n2, m2)} but {fn}({j}) = {(n, m)}')
     if len(got) == len(want):
         img = set(got)
@@ -202,15 +208,93 @@ def run_rows(case, seed, R):
             jf = g * g + 1 + 2 * (g - am) + (1 if m < 0 else 0)
             ja = (n * (n + 2) + m) // 2
             for name, back, jw in (('nm_to_fringe', 'fringe_to_nm', jf), ('nm_to_ansi_j', 'ansi_j_to_nm', ja)):
-                out = R.call(getattr(pp, name), n, m, sig=f'{name}:exception')
+                out = R.call(getattr(pp, name), n, m, hygiene=False, sig=f'{name}:exception')
                 j = as_int(out)
                 if out is FAILED or not N.check(j is not None, f'{name}:type', lambda: f'{name}({n},{m}) returned {out!r}, not an integer'):
                     continue
                 N.check(j == jw, f'{name}:value', lambda: f'{name}({n},{m}) = {j}, expected {jw}')
-                ok, n2, m2 = as_pair(R.call(getattr(pp, back), j, sig=f'{back}:exception'))
+                ok, n2, m2 = as_pair(R.call(getattr(pp, back), j, hygiene=False, sig=f'{back}:exception'))
                 N.check(ok and (n2, m2) == (n, m), f'{back}:roundtrip', lambda: f'{back}({name}({n},{m}) = {j}) = {(n2, m2)}')
     R.nontrivial(b > 1)
     R.outcome('rows')
+
+
+# ---------------------------------------------------------------------------------------------
+# call histories: the maps must be functions of their argument only (no memo tables / hints left by earlier calls)
+
+HIST_SMALL = 120
+HIST_LARGE = [500, 5051, 50177]
+
+
+@functools.lru_cache(None)
+def _ref_table(conv, jmax):
+    """dict j -> published order for every index up to jmax, by brute-force enumeration."""
+    rows = 1
+    while first_index(conv, rows) <= jmax:
+        rows += 1
+    return dict(enumerate(table(conv, 0, rows), start=first_index(conv, 0)))
+
+
+def _hist_alphabet(conv):
+    j0 = first_index(conv, 0)
+    return list(range(j0, HIST_SMALL + 1)) + HIST_LARGE
+
+
+def _prime(f, conv, jmax):
+    """Unjudged fixed prefix of every history case: the largest index, then the first one.  Whatever state a map keeps between calls
+    (grow-only memo tables, a hint left by the last call) is thereby the same at the start of every execution of the case, so that a
+    case replays identically (the explorer's determinism gate) even on a stateful implementation."""
+    try:
+        f(jmax)
+        f(first_index(conv, 0))
+    except Exception:   # noqa -- judged inside the case proper
+        pass
+
+
+def run_history_pairs(case, seed, R):
+    """one first index j1, EVERY second index j2 of the alphabet: f(j1); f(j2) -- in this process, nothing reloaded or cleared."""
+    conv, j1 = case['conv'], case['first']
+    fn = FWD[conv]
+    f = getattr(pp, fn)
+    ref = _ref_table(conv, max(HIST_LARGE))
+    N = Notes(R)
+
+    def rel(a, b):
+        return 'after-higher' if a > b else ('after-lower' if a < b else 'after-same')
+    _prime(f, conv, max(HIST_LARGE))
+    prev = first_index(conv, 0)
+    for j2 in _hist_alphabet(conv):
+        for j, before in ((j1, prev), (j2, j1)):
+            out = R.call(f, j, hygiene=False, sig=f'{fn}:exception')
+            if out is FAILED:
+                continue
+            ok, n, m = as_pair(out)
+            N.check(ok and (n, m) == ref[j], f'{fn}:history:{rel(before, j)}',
+                    lambda: f'{fn}({j}) called right after {fn}({before}) returned {out!r}; the published order has {ref[j]}')
+        prev = j2
+    R.nontrivial()
+    R.outcome('pairs:' + conv)
+
+
+def run_history_sweep(case, seed, R):
+    """ascending, then descending, then ascending again over every index up to J, in this process."""
+    conv, J = case['conv'], case['J']
+    fn = FWD[conv]
+    f = getattr(pp, fn)
+    ref = _ref_table(conv, J)
+    j0 = first_index(conv, 0)
+    N = Notes(R)
+    _prime(f, conv, J)
+    for name, seq in (('ascending', range(j0, J + 1)), ('descending', range(J, j0 - 1, -1)), ('ascending-again', range(j0, J + 1)),
+                      ('stride-7-wrap', [j0 + (k * 7919) % (J - j0 + 1) for k in range(J - j0 + 1)])):
+        for j in seq:
+            out = R.call(f, j, hygiene=False, sig=f'{fn}:exception')
+            if out is FAILED:
+                continue
+            ok, n, m = as_pair(out)
+            N.check(ok and (n, m) == ref[j], f'{fn}:history:sweep:{name}', lambda: f'{fn}({j}) in the {name} sweep returned {out!r}; the published order has {ref[j]}')
+    R.nontrivial()
+    R.outcome('sweep:' + conv)
 
 
 def blocks(conv, J, size):
@@ -251,12 +335,21 @@ def plan(tier, seed):
             b += 1
         row_cases.append({'n0': a, 'n1': b})
         a = b
+    hp_cases = [{'conv': c, 'first': j} for j in range(0, HIST_SMALL + 1) for c in FWD if j >= first_index(c, 0)] + \
+        [{'conv': c, 'first': j} for j in HIST_LARGE for c in FWD]
+    JS = 10_000 if tier == 'quick' else 100_000
+    hs_cases = [{'conv': c, 'J': JS} for c in ('ansi', 'fringe', 'noll', 'xy')]
     cover = ', '.join(f'{c}: j <= {per[c][0]} (rows <= {per[c][1]})' for c in per)
     return [
         ScopeUnit('index_blocks', cases, run_block,
                   f'EVERY single index of Noll, Fringe, ANSI (from 0) and XY up to the end of the row containing {J} [{cover}], cut into row-aligned blocks of ~{size} '
                   'indices; per index: integer types, validity, equality with the brute-force published order, Noll parity and monotone n, ANSI closed form, '
                   'inverse maps; per block: injective and onto the complete set of valid orders of its rows; non-trivial beyond the first row'),
+        ScopeUnit('history_pairs', hp_cases, run_history_pairs,
+                  f'depth-2 call histories over the index alphabet [first..{HIST_SMALL}] + {HIST_LARGE} for each of the four forward maps: EVERY ordered pair (j1, j2), f(j1) then f(j2) in one '
+                  'process without reloading or clearing anything; both answers must equal the brute-force published order (a map that keeps memo tables / search hints between calls fails here)'),
+        ScopeUnit('history_sweeps', hs_cases, run_history_sweep,
+                  f'per map, in one process: every index up to {JS} ascending, then descending, then ascending again, then in a scattered (stride 7919 mod J) order; every answer against the published order', chunk=1),
         ScopeUnit('nm_rows', row_cases, run_rows,
                   f'every valid (n,m) with n <= {NR}: nm_to_fringe and nm_to_ansi_j against exact integer closed forms, and fringe_to_nm / ansi_j_to_nm of the result returns (n,m)'),
     ]
